@@ -153,6 +153,11 @@ func runCrashCase(c crashCase) string {
 		return res
 	}
 	cfg.Model = c.model
+	if len(c.code)%3 == 0 {
+		// a third of the programs on a machine with the coprocessor units enabled (registers at $DE00..)
+		cfg.F256MCoprocFlags = []uint8{1, 4, 5}[len(c.code)%9/3]
+		cfg.F256MCoprocBase = 0xDE00
+	}
 	p, err := cfg.NewCpu()
 	if err != nil {
 		return "builderr"
